@@ -353,13 +353,19 @@ def lookup(m, name, default=None):
     return default
 
 
-def edit_token_line(text, rnd, token):
-    """Remove a whole line that mentions the token, or (when there is none) add one."""
+def edit_token_line(text, rnd, token, tokens=()):
+    """Remove a whole line that mentions a machine-specific token (half of the time, if there is more than one such line or
+    other lines remain), or add one: mentioning a token the text mentions already if there is one (so that the generated
+    test carries an exclusion for it), else `token`."""
     lines = text.split('\n')
-    idx = [i for i, l in enumerate(lines) if token in l]
-    if idx:
+    toks = [t for t in list(tokens) + [token] if t and not t.startswith('{')]
+    idx = [i for i, l in enumerate(lines) if any(t in l for t in toks)]
+    if idx and rnd.random() < 0.5:
         lines.pop(rnd.choice(idx))
         return '\n'.join(lines), 'line with a machine-specific token removed'
+    present = [t for t in toks if t in text]
+    if present:
+        token = rnd.choice(present)
     lines.insert(1 if len(lines) > 1 else len(lines), 'note: ' + token + ' seen')
     if len(lines) == 1 or (len(lines) == 2 and lines[0] == ''):
         return 'note: ' + token + ' seen\n' + text, 'line with a machine-specific token added'
